@@ -137,6 +137,8 @@ pub fn gen_plan(rng: &mut Rng, pool: &Pool) -> Plan {
 
 #[derive(Default)]
 pub struct Stats {
+    pub det_checked: u64,
+    pub det_mismatch: u64,
     pub runs: u64,
     pub twin_runs: u64,
     pub twin_misaligned: u64,
@@ -167,6 +169,8 @@ pub struct Stats {
 
 impl Stats {
     pub fn merge(&mut self, o: Stats) {
+        self.det_checked += o.det_checked;
+        self.det_mismatch += o.det_mismatch;
         self.runs += o.runs;
         self.twin_runs += o.twin_runs;
         self.twin_misaligned += o.twin_misaligned;
@@ -312,6 +316,30 @@ impl Stats {
             self.poll_sequences_nontrivial.insert(seq);
         }
     }
+}
+
+/// Two executions of one plan must record the same history (receiver
+/// addresses of per-run Unimock clones excepted).
+fn same_history(plan: &Plan, a: &RunResult, b: &RunResult) -> bool {
+    let mock = plan.tasks.iter().any(|t| t.app == 2);
+    if a.events.len() != b.events.len() || a.ends != b.ends {
+        return false;
+    }
+    a.events.iter().zip(&b.events).all(|(x, y)| {
+        if x == y {
+            return true;
+        }
+        if !mock {
+            return false;
+        }
+        match (x, y) {
+            (Ev::CallStart { task: t1, method: m1, n: n1, args: a1, flavor: f1, .. }, Ev::CallStart { task: t2, method: m2, n: n2, args: a2, flavor: f2, .. }) => {
+                t1 == t2 && m1 == m2 && n1 == n2 && a1 == a2 && f1 == f2
+            }
+            (Ev::Enter { task: t1, fn_id: m1, n: n1, args: a1, .. }, Ev::Enter { task: t2, fn_id: m2, n: n2, args: a2, .. }) => t1 == t2 && m1 == m2 && n1 == n2 && a1 == a2,
+            _ => false,
+        }
+    })
 }
 
 pub struct Found {
@@ -572,6 +600,15 @@ pub fn check(args: &[String]) -> i32 {
                     let plan = gen_plan(&mut rng, pool);
                     let twin = i % twin_every == 0;
                     let v = evaluate(&plan, apps, pool, twin, Some(&mut stats));
+                    if i % 64 == 0 {
+                        // harness self-check: one plan, two executions, same history
+                        let a = exec::run(&plan, apps, 0, false);
+                        let b = exec::run(&plan, apps, 0, false);
+                        stats.det_checked += 1;
+                        if !same_history(&plan, &a, &b) {
+                            stats.det_mismatch += 1;
+                        }
+                    }
                     if !v.is_empty() {
                         found.lock().unwrap().push(Found { run_index: i, plan, violations: v, mode_note: String::new() });
                         stop.store(true, Ordering::Relaxed);
@@ -583,6 +620,10 @@ pub fn check(args: &[String]) -> i32 {
     });
     let mut stats = merged.into_inner().unwrap();
     let search_wall = simcore::real_now_s() - t0;
+    if stats.det_mismatch > 0 {
+        eprintln!("HARNESS-ERROR: {} of {} plans recorded different histories when executed twice (the simulator is not deterministic)", stats.det_mismatch, stats.det_checked);
+        return 2;
+    }
 
     // C14: the cancellation-point x method table is finite; thorough sweeps it
     let mut sweep = json!(null);
@@ -687,6 +728,7 @@ fn coverage_json(property: &str, pool: &Pool, s: &mut Stats, samples: Vec<Value>
         "methods_in_pool": pool.methods.len(),
         "methods_called": methods_called,
         "runs": s.runs,
+        "determinism_self_check": {"plans_executed_twice": s.det_checked, "history_differences": s.det_mismatch},
         "twin_executions": s.twin_runs,
         "twin_misaligned_skipped": s.twin_misaligned,
         "runs_per_hour": (s.runs as f64 / search_wall.max(1e-9) * 3600.0).round(),
